@@ -452,8 +452,73 @@ pub fn main(args: &[String]) {
         };
         check_case(c, &r, mix(i)).into_iter().map(|m| json!({"case": i, "input": c["input"], "expected": c["out"], "mismatch": m})).collect()
     });
+    let mut res = res;
+    res.extend(check_teardown());
     write_ndjson(&args[1], &res);
     println!("{}", json!({"cases": cases.len(), "mismatches": res.len()}));
+}
+
+/// A record encoded while its thread is going away: a thread-local scope guard, created before the thread's first
+/// record, logs "worker finished" from its destructor.  The formatters that describe the thread and the record (name,
+/// ids, level, message, target, location) need nothing that the thread has already given up at that point, and encode
+/// does not panic (Pattern.tla: the value of a formatter is a function of the record and the thread).  Left out on
+/// purpose: the date (chrono keeps the local zone in a thread-local of its own) and the MDC (log-mdc's map is a
+/// thread-local with a destructor) - what those crates do after their thread-locals are gone is theirs.
+fn check_teardown() -> Vec<Value> {
+    use std::sync::{Arc, Mutex};
+    struct Finisher {
+        enc: Arc<log4rs::encode::pattern::PatternEncoder>,
+        out: Arc<Mutex<Option<Result<String, String>>>>,
+    }
+    impl Drop for Finisher {
+        fn drop(&mut self) {
+            // (a panic that left a thread-local destructor would take the process down: it is caught here and reported)
+            let enc = self.enc.clone();
+            let r = catch(move || {
+                let mut cap = Cap::new(vec![]);
+                let r = enc.encode(&mut cap, &log::Record::builder().level(log::Level::Info).target("worker").module_path(Some("w::m")).file(Some("w.rs"))
+                    .line(Some(7)).args(format_args!("finished")).build());
+                let mut bytes = vec![];
+                for o in &cap.out {
+                    if let Out::Bytes(b) = o {
+                        bytes.extend_from_slice(b);
+                    }
+                }
+                r.map(|_| String::from_utf8_lossy(&bytes).to_string()).map_err(|e| e.to_string())
+            });
+            *self.out.lock().unwrap() = Some(match r {
+                Ok(Ok(s)) => Ok(s),
+                Ok(Err(e)) => Err(format!("error: {}", e)),
+                Err(p) => Err(format!("panic: {}", p)),
+            });
+        }
+    }
+    thread_local! {
+        static FINISHER: std::cell::RefCell<Option<Finisher>> = const { std::cell::RefCell::new(None) };
+    }
+    let mut out = vec![];
+    for (pattern, named) in [("{T}|{m}", true), ("{thread}|{m}", false), ("{I}{i}|{m}", true), ("{P}{pid}|{l}", false), ("{h({l})} {t} {M} {f}:{L} {m}{n}", true),
+                             ("{T:>12.12}|{I:<8}|{m}", true), ("{({T} {m}):30}", false)] {
+        let enc = Arc::new(log4rs::encode::pattern::PatternEncoder::new(pattern));
+        let slot: Arc<Mutex<Option<Result<String, String>>>> = Arc::new(Mutex::new(None));
+        let (enc2, slot2) = (enc.clone(), slot.clone());
+        let b = std::thread::Builder::new();
+        let b = if named { b.name("worker-7".to_string()) } else { b };
+        let first = b.spawn(move || {
+            // the guard first, the thread's first record second: the guard goes last
+            FINISHER.with(|f| *f.borrow_mut() = Some(Finisher { enc: enc2.clone(), out: slot2 }));
+            let mut cap = Cap::new(vec![]);
+            let _ = catch(|| enc2.encode(&mut cap, &log::Record::builder().level(log::Level::Info).target("worker").args(format_args!("started")).build()));
+        }).unwrap().join();
+        let got = slot.lock().unwrap().take();
+        match (first, got) {
+            (Ok(()), Some(Ok(text))) if text.contains("finished") || !pattern.contains("{m}") => {}
+            (f, g) => out.push(json!({"case": "teardown", "input": pattern, "expected": Value::Null,
+                                      "mismatch": {"what": "a record encoded from a thread-local destructor while the thread ends", "pattern": pattern,
+                                                   "thread_joined": f.is_ok(), "result": format!("{:?}", g)}})),
+        }
+    }
+    out
 }
 
 // ---------------------------------------------------------------- C10: width writers
@@ -598,6 +663,60 @@ fn check_width(idx: usize, case: &Value) -> Option<Value> {
         let want = if right { format!("{}{}", padding, body) } else { format!("{}{}", body, padding) };
         if got != want {
             return Some(json!({"what": "width law", "pattern": pattern, "pieces": pieces, "accept_script": case["script"], "expected": want, "actual": got}));
+        }
+        // the law composes through nested groups: a quarter of the cases wrap the whole spec'd item into a group with a
+        // spec of its own.  The group's text is what the inner law gave (WidthWriters.tla, Expected), and the outer law -
+        // cut to the first M, then pad to m - applies to that text: minimum beyond the inner text, maximum below it, both
+        // at once, and a minimum that is larger than the INNER maximum
+        if idx % 4 == 2 {
+            let inner: Vec<char> = want.chars().collect();
+            let n = inner.len();
+            let (omin, omax): (Option<usize>, Option<usize>) = match (idx / 4) % 4 {
+                0 => (Some(n + 1 + idx % 3), None),
+                1 => (None, Some(n.saturating_sub(1 + idx % 2))),
+                2 => (Some(n + 2), Some(n + 2)),
+                _ => (Some(if mx >= 0 { mx as usize + 2 + idx % 2 } else { n + 3 }), None),
+            };
+            let oright = (idx / 16) % 2 == 1;
+            let ofill = ['#', ' '][(idx / 32) % 2];
+            let inner_pattern = &pattern[prefix.len()..];
+            let mut outer = format!("{}{{({})", prefix, inner_pattern);
+            outer.push(':');
+            if let Some(m) = omin {
+                outer.push(ofill);
+                outer.push(if oright { '>' } else { '<' });
+                outer.push_str(&m.to_string());
+            }
+            if let Some(m) = omax {
+                outer.push('.');
+                outer.push_str(&m.to_string());
+            }
+            outer.push('}');
+            let cut: String = inner.iter().take(omax.unwrap_or(usize::MAX)).collect();
+            let padn = omin.map(|m| m.saturating_sub(cut.chars().count())).unwrap_or(0);
+            let padding: String = std::iter::repeat(ofill).take(padn).collect();
+            let want2 = format!("{}{}", prefix, if oright { format!("{}{}", padding, cut) } else { format!("{}{}", cut, padding) });
+            let enc2 = match catch(|| log4rs::encode::pattern::PatternEncoder::new(&outer)) {
+                Ok(e) => e,
+                Err(p) => return Some(json!({"what": "PatternEncoder::new panicked", "pattern": outer, "error": p})),
+            };
+            let mut cap2 = Cap::new(vec![]);
+            let msg2 = Pieces(&pieces);
+            match catch(|| enc2.encode(&mut cap2, &log::Record::builder().level(log::Level::Info).args(format_args!("{}", msg2)).build())) {
+                Err(p) => return Some(json!({"what": "encode panicked", "pattern": outer, "error": p})),
+                Ok(Err(e)) => return Some(json!({"what": "encode failed", "pattern": outer, "error": e.to_string()})),
+                Ok(Ok(())) => {}
+            }
+            let mut b2 = vec![];
+            for o in &cap2.out {
+                if let Out::Bytes(b) = o {
+                    b2.extend_from_slice(b);
+                }
+            }
+            let got2 = String::from_utf8_lossy(&b2).to_string();
+            if got2 != want2 {
+                return Some(json!({"what": "width law through a nested group", "pattern": outer, "pieces": pieces, "expected": want2, "actual": got2}));
+            }
         }
     }
     None
